@@ -290,6 +290,35 @@ func genCase(front string) func(t *rapid.T) Case {
 			}
 			genLongCardOps(t, &c)
 			return c
+		case "dense-card":
+			// many mid-length cardinality constraints with degree >= 2 over few variables, with both polarities: a
+			// constraint propagates while some of its literals are already true, the conjunction is near its
+			// satisfiability threshold, and conflicts are analysed through several cardinality reasons
+			c.Front = "card"
+			c.N = gen.Uniform(t, 8, 13, "n")
+			mk := func() (ls []int, k int) {
+				ls = gen.DistinctLits(t, c.N, gen.Uniform(t, 4, 9, "len"), "l")
+				if len(ls) > c.N {
+					ls = ls[:c.N]
+				}
+				return ls, gen.Uniform(t, 2, max(2, (len(ls)+1)/2), "k")
+			}
+			for i, m := 0, gen.Uniform(t, 2, 5, "m"); i < m; i++ {
+				ls, k := mk()
+				c.Constrs = append(c.Constrs, gen.PC{Kind: "atleast", Lits: ls, K: k})
+			}
+			for i, nOps := 0, rapid.IntRange(4, 14).Draw(t, "nops"); i < nOps; i++ {
+				switch k := rapid.IntRange(0, 9).Draw(t, "what"); {
+				case k <= 2 || i == nOps-1:
+					c.Ops = append(c.Ops, Op{Kind: "solve"})
+				case k <= 8:
+					ls, d := mk()
+					c.Ops = append(c.Ops, Op{Kind: "card", Lits: ls, K: d})
+				default:
+					c.Ops = append(c.Ops, Op{Kind: "clause", Lits: gen.DistinctLits(t, c.N, gen.Uniform(t, 1, 3, "clen"), "c")})
+				}
+			}
+			return c
 		case "hard":
 			// a base with real conflicts (threshold 3-SAT / pigeonhole minus a pigeon): learned clauses and
 			// learned units exist when constraints are added
@@ -330,6 +359,7 @@ func init() {
 		vf.Sub[Case]{Name: "cnf-base", Quick: 12000, Thorough: 150000, Gen: genCase("slicenb"), Check: check, Floor: 0.4, Rule: "base CNF via ParseSliceNb (n<=8)" + tail},
 		vf.Sub[Case]{Name: "conflict-rich-base", Quick: 1500, Thorough: 20000, Gen: genCase("hard"), Check: check, Floor: 0.4, Rule: "base = threshold 3-SAT at n 10..13 or a satisfiable pigeonhole formula (12 variables): the solver has learned clauses and units when constraints are added (variables up to 14)" + tail},
 		vf.Sub[Case]{Name: "long-cardinality", Quick: 3000, Thorough: 40000, Gen: genCase("long-card"), Check: check, Floor: 0.5, Rule: "base = 1..3 cardinality constraints of 7..n literals and degree 2..3 over n in 9..13 variables; history of 3..14 steps: Solve, addition of further long cardinality constraints, and mostly unit clauses that stay consistent with a current model (they falsify literals in the unwatched part of constraints the solver already holds)" + tail},
+		vf.Sub[Case]{Name: "dense-cardinality", Quick: 10000, Thorough: 60000, Gen: genCase("dense-card"), Check: check, Floor: 0.5, Rule: "base = 2..5 cardinality constraints of 4..9 literals (either polarity) and degree 2..(len+1)/2 over n in 8..13 variables; history of 4..14 steps: Solve, mostly additions of further such constraints, some short clauses: the conjunction crosses its satisfiability threshold during the history and conflicts are analysed through cardinality reasons" + tail},
 		vf.Sub[Case]{Name: "card-base", Quick: 8000, Thorough: 100000, Gen: genCase("card"), Check: check, Floor: 0.4, Rule: "base cardinality problem via ParseCardConstrs" + tail},
 		vf.Sub[Case]{Name: "pb-base", Quick: 8000, Thorough: 100000, Gen: genCase("pb"), Check: check, Floor: 0.4, Rule: "base PB problem via ParsePBConstrs" + tail},
 	)
